@@ -1267,9 +1267,10 @@ func (c *codegen) Visit(node ast.Node) ast.Visitor {
 			}
 			c.emitCloneIfArray(typ)
 		}
-		// Do not swap for builtin functions.
-		if !isBuiltin && (f != nil && !isSyscall(f)) {
-			typ, ok := c.typeOf(n.Fun).(*types.Signature)
+		// Do not swap for builtin functions. Function values (lambdas) take their
+		// arguments the same way declared functions do.
+		if !isBuiltin && (f != nil && !isSyscall(f) || f == nil && (isFunc || isFuncValue)) {
+			typ, ok := c.typeOf(n.Fun).Underlying().(*types.Signature)
 			if ok && typ.Variadic() && !n.Ellipsis.IsValid() {
 				// pack variadic args into an array only if last argument is not of form `...`
 				varSize := c.packVarArgs(n, typ)
